@@ -141,6 +141,9 @@ func listenerTLSManagerRebuiltOnEveryUpdate(c *Ctx, rule string) {
 				}
 			}
 		}
+		if !upd && resultStoredIntoField(cs.Instr, "tlsMng") {
+			upd = true // the manager that is installed on the live listener (the recorded-configuration clause is C13.R32)
+		}
 		if !upd {
 			continue
 		}
